@@ -3,7 +3,7 @@ CONSTANTS
   Nodes = {1, 2}
   MaxBlocks = 4
   MaxTxPerBlock = 2
-  MaxOps = 8
+  MaxOps = 10
   Window = 0
   BlockBudget = 1000
   ActiveTxs = {"t1", "t3", "p1"}
